@@ -143,6 +143,10 @@ pub enum UncatchableError {
 
     #[error("failed to serialize call arguments {0}")]
     CallArgumentsSerializationFailed(<CallArgumentsRepr as Representation>::SerializeError),
+
+    /// A value from the data's value store matches its CID but isn't a valid JSON.
+    #[error("value for CID {0:?} is not a valid JSON: {1}")]
+    MalformedValue(Rc<CidRef>, serde_json::Error),
 }
 
 impl ToErrorCode for UncatchableError {
